@@ -197,6 +197,14 @@ pub fn differential(kind: &str, idx: u64, p: &Program, tag: &str, use_reference:
 pub fn c02_pins() -> Vec<Pin> {
     vec![
         Pin {
+            name: "sta_lda_pair_flags",
+            src: "unsigned char i, t, l, g; void main() { g = 4; while (i < 2) { t = i; l = t; if (l) g = 24; break; } }",
+            init: &[("i", 0)],
+            x: 0,
+            y: 0,
+            expect: &[("g", 4)],
+        },
+        Pin {
             name: "removed_lda_flags",
             src: "unsigned char b, c, r; void main() { b = 0; Y = c; b = 0; b = 0; if (b) goto L1; b = 3; L1: ; r = b; }",
             init: &[("c", 129)],
